@@ -13,6 +13,7 @@ import (
 	"fmt"
 	"math/rand"
 	"os"
+	"strings"
 
 	"github.com/nelhage/taktician/ai"
 	"github.com/nelhage/taktician/bitboard"
@@ -168,8 +169,12 @@ func emitC19(c *ctx, p *tak.Position, kind string, emit bool) bool {
 	okI, mI := implRoadWin(p)
 	okR, mR := rulesRoadWin(a)
 	if !okI || !okR {
+		in := enc(p)
+		if c19Hist != "" {
+			in += " ;; after " + c19Hist
+		}
 		c.printf("ORACLE-FAIL phantom-threat | %s | CountThreats=%s, one-ply road win by implementation search: %v, by rules oracle: %v | a legal move of the side to move that completes its road\n",
-			enc(p), l1, okI, okR)
+			in, l1, okI, okR)
 	} else if c.stats["samples"] < 4 {
 		c.stats["samples"]++
 		c.printf("SAMPLE %s | counts %s | winning move (impl search) %s, (rules oracle) %s\n", encAbs(p), l1, encMove(mI), encMove(mR))
@@ -492,6 +497,54 @@ func runC19(c *ctx) {
 			emitC19(c, evPos(r, b.clone(), move, false, r.Intn(4) == 0), "many-groups", true)
 		}
 	}
+	// CALL HISTORIES on the same objects, as the search makes them: a null move (Pass) from the position into a scratch
+	// buffer, further moves from the same position into the same buffer, moves from the children into a second buffer -
+	// and only then the detector is asked about the ORIGINAL position, which none of this may have changed
+	for k := 0; k < 400*c.scale; k++ {
+		size := 3 + k%6
+		var p *tak.Position
+		if k%2 == 0 {
+			b, me, exact, _ := threatBoard(r, size)
+			move := 2 + 2*r.Intn(20)
+			if me == tak.Black {
+				move++
+			}
+			p = evPos(r, b, move, exact, false)
+		} else {
+			ps, _ := randomGame(r, randCfg(r, size), 6+r.Intn(40), []int{4, 3, -1}[r.Intn(3)], false)
+			p = ps[len(ps)-1]
+		}
+		if over, _ := p.GameOver(); over || p.MoveNumber() < 2 {
+			continue
+		}
+		legal := legalMoves(p)
+		steps := 1 + r.Intn(4)
+		var hist []string // "<move from p into buffer 1>[/<move from that child into buffer 2>]"
+		probe := p.Clone()
+		for i := 0; i < steps; i++ {
+			var m tak.Move
+			if i == 0 || r.Intn(3) == 0 {
+				m = tak.Move{Type: tak.Pass}
+			} else if len(legal) > 0 {
+				m = legal[r.Intn(len(legal))]
+			} else {
+				continue
+			}
+			child, err := probe.Move(m)
+			if err != nil {
+				continue
+			}
+			h := encMove(m)
+			if l2 := legalMoves(child); len(l2) > 0 && r.Intn(2) == 0 {
+				h += "/" + encMove(l2[r.Intn(len(l2))])
+			}
+			hist = append(hist, h)
+		}
+		c19History(p, hist)
+		c19Hist = strings.Join(hist, ",")
+		emitC19(c, p, "after-null-move-history", true)
+		c19Hist = ""
+	}
 	// exhaustive small boards
 	maxk3, maxk4 := 2, 1
 	if !c.quick() {
@@ -517,6 +570,25 @@ func runC19(c *ctx) {
 	c19SolverFamily(c)
 }
 
+// c19Hist: the calls made on the position's objects before the judged call (history family); part of the failing input
+var c19Hist string
+
+// c19History plays the recorded calls: every entry moves from p into scratch buffer 1 and optionally from that child
+// into scratch buffer 2 (MovePreallocated, as the search does with its per-ply buffers)
+func c19History(p *tak.Position, hist []string) {
+	s1, s2 := tak.Alloc(p.Size()), tak.Alloc(p.Size())
+	for _, h := range hist {
+		f := strings.Split(h, "/")
+		child, err := p.MovePreallocated(decodeMove(f[0]), s1)
+		if err != nil {
+			continue
+		}
+		if len(f) > 1 {
+			child.MovePreallocated(decodeMove(f[1]), s2)
+		}
+	}
+}
+
 func replayC19(c *ctx) {
 	if len(c.args) < 1 {
 		fmt.Fprintln(os.Stderr, "replay file missing")
@@ -530,10 +602,18 @@ func replayC19(c *ctx) {
 	if c19SolverReplay(c, inp) {
 		return
 	}
+	hist := ""
+	if i := strings.Index(inp, " ;; after "); i >= 0 {
+		hist, inp = inp[i+len(" ;; after "):], inp[:i]
+	}
 	p, err := evDecode(inp)
 	if err != nil {
 		fmt.Fprintln(os.Stderr, err)
 		os.Exit(2)
+	}
+	if hist != "" {
+		c19History(p, strings.Split(hist, ","))
+		c19Hist = hist
 	}
 	emitC19(c, p, "replay", true)
 }
